@@ -13,7 +13,7 @@ import random
 ID = "C05"
 LEVEL = "exploration"
 TIERS = {
-    "quick": {"runs": 12000, "wall": 80, "chunk": 100, "shrink_s": 40, "run_cap_s": 120},
+    "quick": {"runs": 3000, "wall": 150, "chunk": 100, "shrink_s": 40, "run_cap_s": 120},
     "thorough": {"runs": 800_000, "wall": 840, "chunk": 100, "shrink_s": 120, "run_cap_s": 120},
 }
 RULE = (
@@ -162,7 +162,7 @@ def _gen_mps(w, wires, big=False):
     if k < 0.25:
         return [["state"]]
     if k < 0.33:
-        return [["density_matrix", sorted(w.sample(wires, w.randint(1, len(wires))))]]
+        return [["density_matrix", sorted(w.sample(wires, w.randint(1, min(4, len(wires)))))]]
     for _ in range(w.randint(1, 2)):
         r = w.random()
         if r < 0.5:
@@ -310,12 +310,12 @@ def _mutate(w, tape, n):
 def gen_case(streams, tier):
     w, f = streams["workload"], streams["fault"]
     n = w.randint(1, 4)
-    big = w.random() < 0.10
+    big = w.random() < 0.06
     if big:
         n = w.choice([5, 5, 6, 6, 6, 10])
     # the array library the parameters live in, and whether the workflow converts them to numpy before
     # the cache sees them (diff_method=None) or not (backprop)
-    iface = w.choice(["numpy"] * 15 + ["torch", "torch", "jax", "autograd", "autograd"])
+    iface = w.choice(["numpy"] * 32 + ["torch"] * 4 + ["jax"] + ["autograd"] * 3)
     diff = None if iface == "numpy" or w.random() < 0.4 else "backprop"
     r = f.random()
     if r < 0.30:
@@ -447,6 +447,9 @@ def run_case(case):
         if iface == "torch":
             import torch
 
+            if not _ENV.get("torch_ready"):
+                torch.set_num_threads(1)  # 16 workers: no intra-op thread pools on top
+                _ENV["torch_ready"] = True
             conv = lambda x: torch.tensor(np.asarray(x))  # noqa: E731
         elif iface == "jax":
             import jax
